@@ -20,6 +20,7 @@ RULES = {
     'R2': 'verifier semantics: PRED of each panic/return arm of the three verifiers and EXPR of is_synced',
     'R3': 'no effect (with_state_mut, msg_cycles_accept, inter-canister call) before the gates',
     'R4': 'WRITERS of the announced-header bookkeeping are the three bookkeeping functions',
+    'R5': 'EXPR/TABLE of the announced-header height bookkeeping the sync gate reads',
 }
 ASSUMPTIONS = ['a trap rolls back all state changes of the message (IC semantics); R3 shows that nothing precedes the gates anyway']
 
@@ -117,6 +118,7 @@ def run(ctx):
     ctx.floor('R1', 'gated endpoints', n_gated, 7)
     r2(ctx, vfns)
     r4(ctx)
+    r5(ctx)
 
 
 def r2(ctx, vfns):
@@ -204,3 +206,56 @@ def r4(ctx):
               'writers of GenericUnstableBlocks.next_block_headers: %s' % sorted(found),
               'unexpected writer(s) of the announced-header bookkeeping: %s' % extra)
     ctx.floor('R4', 'writers of next_block_headers', len(found), 3)
+
+
+def r5(ctx):
+    from sa import pat as P
+    from sa.util import table, find_locals, is_var, describe_table
+    from sa.expr import ex
+    prog = ctx.prog
+    GUB = 'ic_btc_canister::unstable_blocks::GenericUnstableBlocks::'
+    NB = 'ic_btc_canister::unstable_blocks::next_block_headers::NextBlockHeaders::'
+    f = ctx.fn('R5', GUB + 'insert_next_block_header')
+    if f:
+        e = ex(prog, f)
+        PREV = P.call('<ic_btc_types::BlockHash as core::convert::From>::from', P.field('prev_blockhash', P.param('block_header')))
+        known = P.field('0', P.downcast('Some', P.call(NB + 'get_height', P.field('next_block_headers', P.param('self')), PREV)))
+        from_tree = P.binop('Add', P.param('stable_height'), P.has(P.downcast('Ok', P.call(GUB + 'block_depth', P.param('self'), PREV))))
+        ls = find_locals(prog, f, lambda x, l: known(x), lambda x, l: from_tree(x))
+        ins = [c for c in f.calls_to(NB + 'insert') if not c.cleanup]
+        good = len(ls) == 1 and len(ins) == 1 and P.binop('Add', is_var(ls[0]), P.const(1))(e.operand(ins[0].args[2])) and P.param('block_header')(e.operand(ins[0].args[1]))
+        ctx.check(good, 'R5', 'announced-height', ins[0] if ins else f, 'announced height = (announced height of the parent | stable_height + depth of the parent block) + 1',
+                  'announced header height is %s' % (show(e.operand(ins[0].args[2])) if ins else None))
+        rows = table(prog, f)
+        err = [r for r in rows if P.agg(variant='Err')(r[1])]
+        good = len(err) == 1 and P.exactly(err[0][2], [P.is_(P.call(NB + 'get_height', P.anything, PREV), 'None'), P.is_(P.call(GUB + 'block_depth', P.param('self'), PREV), 'Err')])
+        ctx.check(good, 'R5', 'announced-needs-parent', f, 'a header is refused exactly when its parent is neither announced nor in the tree', 'refusal rows: %s' % describe_table(err))
+    f = ctx.fn('R5', NB + 'insert')
+    if f:
+        e = ex(prog, f)
+        ent = [c for c in f.calls() if not c.cleanup and c.matches('alloc::collections::btree::map::BTreeMap::entry') and P.has(P.field('height_to_hash'))(e.operand(c.args[0])) and P.param('height')(e.operand(c.args[1]))]
+        ins = [c for c in f.calls() if not c.cleanup and c.matches('alloc::collections::btree::map::BTreeMap::insert') and P.has(P.field('hash_to_height_and_header'))(e.operand(c.args[0]))]
+        good = len(ent) == 1 and len(ins) == 1 and P.agg(_0=P.param('height'), _1=P.param('block_header'))(e.operand(ins[0].args[2])) and not cond_exprs(prog, f, ins[0].bb)
+        ctx.check(good, 'R5', 'insert-both-maps', f, 'insert records the header under its hash (with the height) and the hash under the height', 'NextBlockHeaders::insert does not update both maps')
+    f = ctx.fn('R5', NB + 'remove_until_height')
+    if f:
+        e = ex(prog, f)
+        rng = list({e.rvalue(st['rv']) for b in f.blocks for st in b['stmts'] if 'rv' in st and P.agg('Range')(e.rvalue(st['rv']))})
+        good = len(rng) == 1 and P.binop('Add', P.param('until_height'), P.const(1))(dict(rng[0][4]).get('end'))
+        rm = sorted(x[2] for c in f.calls() if not c.cleanup and c.matches('alloc::collections::btree::map::BTreeMap::remove') for x in walk(e.operand(c.args[0])) if x[0] == 'field' and x[2] in ('height_to_hash', 'hash_to_height_and_header'))
+        ctx.check(good and rm == ['hash_to_height_and_header', 'height_to_hash'], 'R5', 'prune-inclusive', f, 'pruning covers smallest..=until_height and removes from both maps',
+                  'prune range: %s, maps removed from: %s' % ([show(x) for x in rng], rm))
+    f = ctx.fn('R5', NB + 'remove')
+    if f:
+        e = ex(prog, f)
+        rm = sorted(x[2] for c in f.calls() if not c.cleanup and c.matches('alloc::collections::btree::map::BTreeMap::remove', 'alloc::vec::Vec::remove', 'alloc::collections::btree::map::BTreeMap::get_mut') for x in walk(e.operand(c.args[0])) if x[0] == 'field' and x[2] in ('height_to_hash', 'hash_to_height_and_header'))
+        ctx.check('hash_to_height_and_header' in rm and 'height_to_hash' in rm, 'R5', 'remove-both-maps', f, 'remove drops the header and its entry in the height index', 'remove touches %s' % rm)
+    f = ctx.fn('R5', NB + 'get_max_height')
+    if f:
+        r = ex(prog, f).local(0)
+        good = P.call('core::option::Option::map', P.call('*::last', P.call('alloc::collections::btree::map::BTreeMap::iter', P.field('height_to_hash', P.param('self')))), P.anything)(r)
+        ctx.check(good, 'R5', 'max-height', f, 'max height = last key of the height index', 'get_max_height = %s' % show(r))
+    f = ctx.fn('R5', GUB + 'next_block_headers_max_height')
+    if f:
+        r = ex(prog, f).local(0)
+        ctx.check(P.call(NB + 'get_max_height', P.field('next_block_headers', P.param('self')))(r), 'R5', 'max-height-accessor', f, 'the sync gate reads NextBlockHeaders::get_max_height', 'accessor = %s' % show(r))
